@@ -1,8 +1,8 @@
 (* GENERATED from /repo on every run by translate/c14_facts.py -- do not edit *)
 From SF Require Import Base.Val C14.Writer.
 Open Scope string_scope.
-Definition sat_plan (arg_mode self_mode : option string) : sat_action :=
-  (let mode_1 := (py_or_str arg_mode (py_str_opt self_mode)) in (if (String.eqb mode_1 "append"%string) then SatInsert else (if (String.eqb mode_1 "ignore"%string) then (let exists_2 := true in (if (String.eqb mode_1 "overwrite"%string) then (let replace_3 := true in (SatCreate exists_2 replace_3)) else (SatCreate exists_2 false))) else (if (String.eqb mode_1 "overwrite"%string) then (let replace_4 := true in (SatCreate false replace_4)) else (SatCreate false false))))).
+Definition sat_plan (table_exists : bool) (arg_mode self_mode : option string) : sat_action :=
+  (let mode_1 := (py_or_str arg_mode (py_str_opt self_mode)) in (if (String.eqb mode_1 "append"%string) then (if (orb (negb true) table_exists) then SatInsert else (if (String.eqb mode_1 "ignore"%string) then (let exists_2 := true in (if (String.eqb mode_1 "overwrite"%string) then (let replace_3 := true in (SatCreate exists_2 replace_3)) else (SatCreate exists_2 false))) else (if (String.eqb mode_1 "overwrite"%string) then (let replace_4 := true in (SatCreate false replace_4)) else (SatCreate false false)))) else (if (String.eqb mode_1 "ignore"%string) then (let exists_5 := true in (if (String.eqb mode_1 "overwrite"%string) then (let replace_6 := true in (SatCreate exists_5 replace_6)) else (SatCreate exists_5 false))) else (if (String.eqb mode_1 "overwrite"%string) then (let replace_7 := true in (SatCreate false replace_7)) else (SatCreate false false))))).
 Definition validate_mode (path_exists : bool) (mode0 : option string) : vres :=
   (let mode_1 := (py_or_str mode0 "error"%string) in (if (andb (orb (String.eqb mode_1 "error"%string) (orb (String.eqb mode_1 "errorifexists"%string) false)) path_exists) then VRaiseExists else (if (andb (String.eqb mode_1 "ignore"%string) path_exists) then (VOk mode_1 true) else (VOk mode_1 false)))).
 Definition after_validate (mode : string) (skip : bool) : wact :=
@@ -11,5 +11,6 @@ Definition path_mode (f : fmt) (arg_mode self_mode : option string) : option str
   match f with FCsv => (py_or_opt arg_mode self_mode) | FJson => (py_or_opt arg_mode self_mode) | FParquet => (py_or_opt arg_mode self_mode) end.
 Definition add_if_absent : bool := false.
 Definition byname_source : byname_src := ByEngine.
-Definition gen_cfg : cfg := mkCfg sat_plan validate_mode after_validate path_mode add_if_absent byname_source.
+Definition cleans_new_path_debris : bool := true.
+Definition gen_cfg : cfg := mkCfg sat_plan validate_mode after_validate path_mode add_if_absent byname_source cleans_new_path_debris.
 
